@@ -125,14 +125,47 @@ def toRegex (t : Template) : Pattern :=
 /-- `RoutingParameter.key` for a parameter with a path template: the first (only) group name -/
 def templateKey (t : Template) : List Char := t.key
 
+/-! ### attribute paths: `FieldHeader.disambiguated` / `RoutingParameter.disambiguated_field` -/
+
+/-- split on `.`: first component and the remaining ones -/
+def splitDotsAux : List Char → List Char × List (List Char)
+  | [] => ([], [])
+  | c :: cs =>
+    if c = '.' then ([], (splitDotsAux cs).1 :: (splitDotsAux cs).2)
+    else (c :: (splitDotsAux cs).1, (splitDotsAux cs).2)
+
+/-- `str.split(".")` -/
+def splitDots (v : List Char) : List (List Char) := (splitDotsAux v).1 :: (splitDotsAux v).2
+
+/-- `".".join(…)` -/
+def joinDots : List (List Char) → List Char
+  | [] => []
+  | [a] => a
+  | a :: b :: r => a ++ '.' :: joinDots (b :: r)
+
+/-- `segment + "_" if segment in RESERVED_NAMES else segment` -/
+def suffixSeg (seg : List Char) : List Char :=
+  if Pinned.reservedNames.contains (String.ofList seg) then seg ++ ['_'] else seg
+
+/-- `FieldHeader.disambiguated` and `RoutingParameter.disambiguated_field` (since the `fix:`
+    commits a11332b / 52dedca): every dot-separated segment that is a reserved word carries the
+    suffix.  (Before, implicit routing looked up the whole dotted string and explicit routing did
+    not disambiguate at all; see findings/C06.json, "fixed".) -/
+def disambiguated (raw : List Char) : List Char :=
+  joinDots ((splitDots raw).map suffixSeg)
+
+/-- `request.<path>` is a Python attribute expression only if no component is empty or a keyword -/
+def attrPathValid (p : List Char) : Bool :=
+  (splitDots p).all fun c => c ≠ [] && !Pinned.pyKeywords.contains (String.ofList c)
+
 /-! ### explicit routing: the emitted chain -/
 
 /-- the request, seen through the attribute expressions the emitted code evaluates
-    (`request.a.b` ↦ value; unset string fields read as `""`) -/
+    (python attribute path `a.b_` ↦ value of `request.a.b_`; unset string fields read as `""`) -/
 abbrev Request := List Char → List Char
 
 structure Param where
-  field : List Char                 -- dotted field path, copied into `request.<field>`
+  field : List Char                 -- dotted field path; read as `request.<disambiguated field>`
   template : Option Template        -- `none`: no `path_template`
 deriving Repr, DecidableEq
 
@@ -150,9 +183,9 @@ def paramKey (p : Param) : List Char :=
 /-- what one routing parameter contributes for a request: `(key, value)` or nothing -/
 def contrib (ct : ClassTables) (r : Request) (p : Param) : Option (List Char × List Char) :=
   match p.template with
-  | none => if r p.field = [] then none else some (p.field, r p.field)
+  | none => if r (disambiguated p.field) = [] then none else some (p.field, r (disambiguated p.field))
   | some t =>
-    match capture ct t (r p.field) with
+    match capture ct t (r (disambiguated p.field)) with
     | some v => if v = [] then none else some (t.key, v)
     | none => none
 
@@ -215,10 +248,6 @@ def primaryPath (verbs : List (List Char)) : List Char :=
 def fieldHeaders (ct : ClassTables) (path : List Char) : List (List Char) :=
   pyFindall1 ct Pinned.fieldHeaders.re path
 
-/-- `FieldHeader.disambiguated` (the whole dotted string is looked up) -/
-def disambiguated (raw : List Char) : List Char :=
-  if Pinned.reservedNames.contains (String.ofList raw) then raw ++ ['_'] else raw
-
 /-- the tuple passed to `to_grpc_metadata`: `(raw, request.<disambiguated>)` per variable -/
 def implicitPairs (hs : List (List Char)) (r : Request) : List (List Char × List Char) :=
   hs.map fun h => (h, r (disambiguated h))
@@ -227,18 +256,6 @@ def implicitHeader (ct : ClassTables) (path : List Char) (r : Request) : Option 
   match fieldHeaders ct path with
   | [] => none
   | hs => some (encodePairs (implicitPairs hs r))
-
-/-- split on `.` -/
-def splitDots : List Char → List (List Char)
-  | [] => [[]]
-  | c :: cs =>
-    match splitDots cs with
-    | [] => [[c]]          -- unreachable
-    | h :: t => if c = '.' then [] :: h :: t else (c :: h) :: t
-
-/-- `request.<path>` is a Python attribute expression only if no component is a keyword -/
-def attrPathValid (p : List Char) : Bool :=
-  (splitDots p).all fun c => c ≠ [] && !Pinned.pyKeywords.contains (String.ofList c)
 
 /-- a primary http path, tokenised: literal text outside braces, `{name}` or `{name=template}` -/
 inductive PSeg where
